@@ -4,4 +4,9 @@ import XzVerif.Props.C01
 #print axioms Props.C01.C01_op_codec_mirror
 #print axioms Props.C01.C01_range_coder_roundtrip
 #print axioms Props.C01.C01_tables
+#print axioms Props.C01.C01_hashtable4_proposals_applicable
+#print axioms Props.C01.C01_bintree_proposals_applicable
+#print axioms Props.C01.C01_bintree_no_index_panic
+#print axioms Props.C01.C01_hashtable4_no_index_panic
+#print axioms Props.C01.C01_applicable_is_goOpOk
 #print axioms Props.C01.C01_init_table_ok
